@@ -53,7 +53,10 @@ fn real_traffic(seed: u64, len: usize) -> Option<verif::TallyCopy> {
     let mut rng = Rng::new(seed);
     let mut live: [(*mut u8, usize); 32] = [(std::ptr::null_mut(), 0); 32];
     let mut n = 0usize;
+    // Measuring a thread (creating / clearing / reading its tally) must not itself issue allocator requests.
+    evlog::log_raw(evlog::NOTE, 12, seed, 0);
     verif::clear_thread_tally();
+    evlog::log_raw(evlog::NOTE, 13, seed, 0);
     evlog::log_raw(evlog::NOTE, 10, seed, 0);
     for _ in 0..len {
         let size = match rng.below(5) {
@@ -90,8 +93,10 @@ fn real_traffic(seed: u64, len: usize) -> Option<verif::TallyCopy> {
             }
         }
     }
-    let tally = verif::thread_tally();
     evlog::log_raw(evlog::NOTE, 11, seed, 0);
+    evlog::log_raw(evlog::NOTE, 12, seed, 1);
+    let tally = verif::thread_tally();
+    evlog::log_raw(evlog::NOTE, 13, seed, 1);
     for item in live.iter().take(n) {
         unsafe { dealloc(item.0, Layout::from_size_align(item.1, 8).unwrap()) };
     }
